@@ -187,6 +187,31 @@ for c in req.get("legacy", []):
         res.append(err(e))
 out["legacy"] = res
 
+# ------------------------------------------------------------------ the legacy stacking path: parallel_gradient_search
+res = []
+for c in req.get("stacked", []):
+    try:
+        src, dst = area(c["src"], "s"), area(c["dst"], "d")
+        (dx, dy), (xl, xp, yl, yp), (sx, sy) = G._get_coordinates_in_same_projection(src, dst)
+        dx, dy = np.asarray(dx, dtype=np.float64), np.asarray(dy, dtype=np.float64)
+        d = arr(c["data"], tuple(c["src"]["shape"]))[np.newaxis]
+        args = [[] for _ in range(12)]
+        for ci, (c0, c1) in enumerate(c["cols"]):
+            for ri, (r0, r1) in enumerate(c["rows"]):
+                for (a0, a1, b0, b1) in c["crops"]:
+                    ys, xs = slice(a0, a1), slice(b0, b1)
+                    vals = [d[:, ys, xs], sx[ys, xs], sy[ys, xs], dx[r0:r1, c0:c1], dy[r0:r1, c0:c1],
+                            xl[ys, xs], xp[ys, xs], yl[ys, xs], yp[ys, xs], (ci, ri), (r0, r1, c0, c1)]
+                    for k, v in enumerate(vals):
+                        args[k].append(np.ascontiguousarray(v) if isinstance(v, np.ndarray) else v)
+        v = G.parallel_gradient_search(*args[:11], method="bilinear")
+        v = np.asarray(v.compute())
+        res.append({"shape": list(v.shape), "values": flat(v), "sx": flat(sx), "sy": flat(sy), "xl": flat(xl), "xp": flat(xp),
+                    "yl": flat(yl), "yp": flat(yp), "dx": flat(dx), "dy": flat(dy)})
+    except Exception as e:  # noqa: BLE001
+        res.append(err(e))
+out["stacked"] = res
+
 # ------------------------------------------------------------------ the resampler, per PYTROLL_CHUNK_SIZE (this process)
 trace = None
 blocks_seen = None
